@@ -335,14 +335,17 @@ func forInnerEmitConsumeLine(f *forExpander) forStateFn {
 }
 
 func forRof(f *forExpander) forStateFn {
-	for f.nextToken.typ != tokNewline {
-		if f.nextToken.typ == tokEOF || f.nextToken.typ == tokError {
+	// the rest of the ROF line is dropped; the line may be the last of the input
+	for f.nextToken.typ != tokNewline && f.nextToken.typ != tokEOF {
+		if f.nextToken.typ == tokError {
 			f.tokens <- f.nextToken
 			return nil
 		}
 		f.next()
 	}
-	f.next()
+	if f.nextToken.typ == tokNewline {
+		f.next()
+	}
 
 	for i := 1; i <= f.forCount; i++ {
 		for _, tok := range f.forContent {
